@@ -340,6 +340,28 @@ def c06(ctx):
                              "digests": [x[:600] for x in list(digs.keys())[:3]], "kinds": _kinds(digs), "exc": ref_ev["exc"],
                              "cuts": "seg_set", "nseg": len(ids)})
     ctx.coverage["parser_runs"] = nruns
+    # through the workers' connection handling: the requests the application sees must not depend on how the bytes
+    # were split across reads either (kept-alive connections go back to the poller / handler loop between requests)
+    nw = 0
+    for f in ("pipeline", "trunc", "chunks"):
+        cases = emit_cases(f)
+        cases = rng.sample(cases, min(len(cases), 40 if ctx.quick else 400))
+        for ci, case in enumerate(cases):
+            v = rng.randrange(cz.num_variants(case["ms"]))
+            data = bytes(cz.concretize(case["ms"], v, case["cut"]).data)
+            for kind in ("gthread", "async"):
+                digs, ev = {}, []
+                segsets = [[], list(range(1, len(data)))] + [rand_cuts(rng, len(data)) for _ in range(4 if ctx.quick else 12)]
+                for cuts in segsets:
+                    wev, info, c = worker_observe(case, v, cuts, kind, "read")
+                    d = json.dumps([wev, info["escaped"]], sort_keys=True)
+                    ev.append({"e": "seg", "dig": digs.setdefault(d, len(digs) + 1)})
+                    nw += 1
+                traces.append({"ms": case["ms"], "cut": case["cut"], "mode": "read", "ev": ev})
+                meta.append({"family": f, "case": ci, "variant": v, "bytes": data.decode("latin-1"), "shape": "worker:" + kind,
+                             "digests": [x[:600] for x in list(digs.keys())[:3]], "kinds": ["%d observations" % len(digs)],
+                             "exc": None, "cuts": "seg_set", "nseg": len(segsets)})
+    ctx.coverage["worker_level_runs"] = nw
     real_scale_c06(ctx, traces, meta)
     verdicts, stats = tlc.validate_batch("HttpTrace", "HttpTrace.cfg", traces, name="HttpTrace_C06", chunk=4000)
     ctx.add_traces(len(traces), stats)
@@ -492,6 +514,8 @@ def limit_record(ctx, cfgkw, rllen, fields, cuts_kind, rng, body=b"", proxy=Fals
         cuts = list(range(8192, len(data), 8192))
     elif cuts_kind == "crlf":
         cuts = [data.find(b"\r\n") + 1]       # a read ends between the CR and the LF of the request line
+    elif cuts_kind == "eol":
+        cuts = [data.find(b"\r\n") + 2]       # the first line arrives alone; the next read brings the rest of the head
     elif cuts_kind == "mid":
         # the first read ends inside the head; the second brings the rest of it plus what follows
         cuts = [max(1, (data.find(b"\r\n\r\n") + 2) // 2)]
@@ -648,11 +672,16 @@ def c12(ctx):
                     fields[pos] = ("plain", ln)
                     add(*limit_record(ctx, {"limit_request_field_size": S}, 14, fields, ck, rng))
     # combined small limits, followed by a body and a pipelined request in the same reads
-    for (L, F, S) in [(64, 2, 32), (0, 1, 0), (20, 3, 16)] + ([] if ctx.quick else [(100, 5, 50), (0, 100, 0)]):
-        for ck in ("whole", "mid", "eoh-1", "rand"):
+    for (L, F, S) in [(64, 2, 32), (0, 1, 0), (20, 3, 16), (4094, 4, 50), (0, 2, 20)] + ([] if ctx.quick else [(100, 5, 50), (0, 100, 0)]):
+        for ck in ("whole", "mid", "eoh-1", "rand", "crlf", "eol"):
             # no header field at all, pipelined requests right behind
             add(*limit_record(ctx, {"limit_request_line": L, "limit_request_fields": F, "limit_request_field_size": S},
                               14, [], ck, rng, body=b"GET /2 HTTP/1.1\r\n\r\n" * 20))
+            if L == 0 or L >= 400:
+                # ... whose own (legal) head is longer than the header-block cap of these limits
+                nxt = b"GET /" + b"a" * 300 + b" HTTP/1.1\r\n\r\n"
+                add(*limit_record(ctx, {"limit_request_line": L, "limit_request_fields": F, "limit_request_field_size": S},
+                                  14, [], ck, rng, body=nxt * 3))
         for nf in (1, F):
             for ck in cutkinds[:3] + ["mid", "eoh-1"]:
                 body = b"b" * 300
@@ -668,12 +697,20 @@ def c12(ctx):
         add(*limit_record(ctx, {"limit_request_field_size": 0}, 14, [("plain", 12), ("plain", 900000)], ck, rng))
     # endless streams
     cfgs = [{"limit_request_line": 64, "limit_request_fields": 4, "limit_request_field_size": 32},
-            {"limit_request_line": 200, "limit_request_fields": 10, "limit_request_field_size": 100}]
+            {"limit_request_line": 200, "limit_request_fields": 10, "limit_request_field_size": 100},
+            # 0 = "unlimited" field size / request line: the head buffer is still bounded (by the default sizes)
+            {"limit_request_line": 64, "limit_request_fields": 3, "limit_request_field_size": 0},
+            {"limit_request_line": 0, "limit_request_fields": 2, "limit_request_field_size": 0}]
     if not ctx.quick:
         cfgs.append({})     # defaults
     for kw in cfgs:
         for phase in ("reqline", "reqline_after_proxy", "headers", "chunkline", "trailers"):
             for style in (("long", "many") if phase in ("headers", "trailers") else ("long",)):
+                # an element whose own limit is set to 0 ("unlimited") has no bound to enforce: not judged
+                if kw.get("limit_request_line", 1) == 0 and phase.startswith("reqline"):
+                    continue
+                if kw.get("limit_request_field_size", 1) == 0 and style == "long" and phase in ("headers", "trailers"):
+                    continue
                 for recv in ((1, 64, 8192) if kw else (8192,)):
                     add(*endless_record(kw, phase, style, recv))
     verdicts, stats = tlc.validate_batch("HttpLimitsTrace", "HttpLimitsTrace.cfg", traces, name="HttpLimits_C12")
